@@ -29,6 +29,7 @@ import (
 	"go/token"
 	"os"
 	"path/filepath"
+	"sort"
 	"strings"
 )
 
@@ -511,7 +512,7 @@ func main() {
 		b.WriteString("From Coq Require Import List ZArith String.\nFrom BB.Model Require Import GoFrag GoFrag2.\nImport ListNotations.\nLocal Open Scope string_scope.\nLocal Open Scope Z_scope.\n\n")
 		fset := token.NewFileSet()
 		for _, tg := range tgs {
-			f, err := parser.ParseFile(fset, filepath.Join(*repo, tg.file), nil, 0)
+			f, err := parser.ParseFile(fset, locate(*repo, tg.file, tg.name), nil, 0)
 			if err != nil {
 				fmt.Fprintln(os.Stderr, "gotr:", err)
 				os.Exit(2)
@@ -537,7 +538,7 @@ func main() {
 	known := map[string]bool{}
 	fset := token.NewFileSet()
 	for _, tg := range targets {
-		f, err := parser.ParseFile(fset, filepath.Join(*repo, tg.file), nil, 0)
+		f, err := parser.ParseFile(fset, locate(*repo, tg.file, tg.name), nil, 0)
 		if err != nil {
 			fmt.Fprintln(os.Stderr, "gotr:", err)
 			os.Exit(2)
@@ -616,4 +617,46 @@ func isGosched(call *ast.CallExpr) bool {
 	}
 	pkg, ok := sel.X.(*ast.Ident)
 	return ok && pkg.Name == "runtime" && pkg.Obj == nil && sel.Sel.Name == "Gosched"
+}
+
+// locate: the file of the package that declares the function, method or func-valued variable `name` - the file it used to
+// live in if it is still there, otherwise any other non-test file (a declaration moved to another file is the same declaration).
+func locate(repo, file, name string) string {
+	declares := func(path string) bool {
+		f, err := parser.ParseFile(token.NewFileSet(), path, nil, 0)
+		if err != nil {
+			return false
+		}
+		for _, d := range f.Decls {
+			switch x := d.(type) {
+			case *ast.FuncDecl:
+				if x.Name.Name == name && x.Body != nil {
+					return true
+				}
+			case *ast.GenDecl:
+				if x.Tok == token.VAR {
+					for _, sp := range x.Specs {
+						for _, n := range sp.(*ast.ValueSpec).Names {
+							if n.Name == name {
+								return true
+							}
+						}
+					}
+				}
+			}
+		}
+		return false
+	}
+	def := filepath.Join(repo, file)
+	if declares(def) {
+		return def
+	}
+	names, _ := filepath.Glob(filepath.Join(repo, "*.go"))
+	sort.Strings(names)
+	for _, n := range names {
+		if !strings.HasSuffix(n, "_test.go") && n != def && declares(n) {
+			return n
+		}
+	}
+	return def
 }
